@@ -66,14 +66,21 @@ class PyRepo:
                     while_true_to_test, inline_local_procedures, loop_to_comprehension, search_loop_to_membership, \
                     checked_unwrap_to_extract, match_to_if, optional_flag_to_test, nest_lifted_helpers, inline_simple_generators, \
                     extend_by_generator_to_appends, unpartial_private_helpers, dissolve_local_objects, bound_generator_to_list
-                from .pynormal import inline_effectful_predicates, get_or_insert_to_membership
-                self.drained = getattr(self, 'drained', 0) + get_or_insert_to_membership(tree)
+                from .pynormal import inline_effectful_predicates, get_or_insert_to_membership, inline_private_byte_constants, dissolve_missing_dicts
+                self.drained = getattr(self, 'drained', 0) + get_or_insert_to_membership(tree) + inline_private_byte_constants(tree) + dissolve_missing_dicts(tree)
+                from .pynormal import inline_private_procedures, restore_static_aliases
+                self.nested_helpers = getattr(self, 'nested_helpers', 0) + restore_static_aliases(tree)
+                self.inlined_procs = getattr(self, 'inlined_procs', 0) + inline_private_procedures(tree)
                 self.nested_helpers = getattr(self, 'nested_helpers', 0) + inline_effectful_predicates(tree) + unpartial_private_helpers(tree) + nest_lifted_helpers(tree) + dissolve_local_objects(tree)
+                from .pynormal import single_return_closure_to_lambda
+                self.nested_helpers += single_return_closure_to_lambda(tree)
                 self.drained = getattr(self, 'drained', 0) + match_to_if(tree) + optional_flag_to_test(tree) + bound_generator_to_list(tree) + inline_simple_generators(tree) + extend_by_generator_to_appends(tree) + poploop_to_for(tree) + eafp_to_lbyl(tree)
                 from .pynormal import specialise_tables
                 self.tables_specialised = getattr(self, 'tables_specialised', 0) + sum(
                     specialise_tables(f_, tree) for f_ in [x for x in ast.walk(tree) if isinstance(x, ast.FunctionDef)])
                 self.inlined_procs = getattr(self, 'inlined_procs', 0) + inline_local_procedures(tree)
+                from .pynormal import merge_twin_branch_calls, unroll_callable_tuples
+                self.drained += merge_twin_branch_calls(tree) + unroll_callable_tuples(tree)
                 self.drained += while_true_to_test(tree) + loop_to_comprehension(tree) + checked_unwrap_to_extract(tree)
                 from .pynormal import fold_list_building
                 self.drained += fold_list_building(tree)
